@@ -195,9 +195,19 @@ def coq_makefile():
         raise RuntimeError("coq_makefile failed: " + out)
 
 
+def ensure_gen():
+    """every Gen file named in _CoqProject must exist before coqdep runs; generate the missing ones"""
+    proj = read(os.path.join(COQ, "_CoqProject")).split()
+    missing = [f for f in proj if f.startswith("Gen/") and not os.path.exists(os.path.join(COQ, f))]
+    if missing:
+        from . import setup
+        setup.generate_all()
+
+
 def coq_make(targets, timeout=1500, force=()):
     """Build the given .vo targets (paths relative to coq/).  `force`: .vo files removed first so that they are
     re-checked and their Print Assumptions output is in the log.  Returns (ok, log)."""
+    ensure_gen()
     with Lock("coq"):
         if not os.path.exists(os.path.join(COQ, "Makefile")) or \
                 os.path.getmtime(os.path.join(COQ, "Makefile")) < os.path.getmtime(os.path.join(COQ, "_CoqProject")):
